@@ -125,7 +125,7 @@ def _cmp(c, vec, clr):
 
 PINNED_D09 = [
     # vectorised compile into a node cached by an earlier vectorised compile: the earlier circuit's units reappear
-    dict(calls=[_cmp('c1', True, False), _cmp('c3', True, False)], expect='extra_units', n_expected=2),
+    dict(calls=[_cmp('c1', True, False), _cmp('c3', True, False)], expect='extra_units_or_raises', n_expected=2),
     # ... cached by an earlier non-vectorised compile: loud failure
     dict(calls=[_cmp('c1', False, False), _cmp('c1', True, False)], expect='raises', n_expected=3),
 ]
@@ -137,9 +137,9 @@ def pinned_d09(ctx):
     outs = run_cases(au.replay, PINNED_D09, timeout=300)
     for p, o in zip(PINNED_D09, outs):
         ctx.case(key=['pinned-D09', p['calls']])
-        if p['expect'] == 'raises' and 'exc' in o and o.get('at') == 1:
+        if p['expect'] in ('raises', 'extra_units_or_raises') and 'exc' in o and o.get('at') == 1:
             ctx.known_hit('D09', dict(case=p['calls'], observed=o))
-        elif p['expect'] == 'extra_units' and o.get('units') and len(o['units']) > p['n_expected']:
+        elif p['expect'] in ('extra_units', 'extra_units_or_raises') and o.get('units') and len(o['units']) > p['n_expected']:
             ctx.known_hit('D09', dict(case=p['calls'], observed=o))
         elif o.get('units') and len(o['units']) == p['n_expected']:
             ctx.notes.setdefault('pinned_no_longer_failing', []).append(p['calls'])
